@@ -22,7 +22,7 @@ fn find_disallowed_space(label: &str) -> Option<usize> {
     let mut last_c: Option<char> = None;
     let mut offset = 0;
 
-    for (index, c) in label.chars().enumerate() {
+    for (index, c) in label.char_indices() {
         offset = index;
         if !common::is_space_separator(c) {
             last_c = Some(c);
@@ -85,8 +85,8 @@ where
         Some(pos) => {
             let mut res = String::from(&s[..pos]);
             res.reserve(s.len() - res.len());
-            let mut begin = true;
-            let mut prev_space = false;
+            let mut begin = pos == 0;
+            let mut prev_space = res.ends_with(common::SPACE);
             for c in s[pos..].chars() {
                 if !common::is_space_separator(c) {
                     res.push(c);
